@@ -157,6 +157,26 @@ def catalogue(chk, deb, btcc, tap):
     for s in ["", "[", "]", "0x", "()", "a(", "a)", "((", "[[[", "x" * 5000, "0x" + "ab" * 60000, "[" + "1 " * 3000 + "]", "-9223372036854775808", "9223372036854775808"]:
         cli("btcc-token", "btcc", [s])
     cli("btcc-noargs", "btcc", [])
+    # ---- tokens that end up in diagnostics (printf conversions), in every place a token is read: btcc, script / stack arguments of an interactive
+    # btcdeb (the quiet, piped runs print no warnings), exec and tf in a session
+    fmt_tokens = ["OP_%n", "OP_%s%s%s%s%s%s%s%s", "x%d%n", "OP_x%5$n", "%n%n%n%n", "OP_%99999999d", "OP_%s", "x%s%s%s%s%s%s", "OP_%1$s%2$s%3$s%4$s%5$s%6$s%7$s%8$s%9$n", "OP_%hhn%hn%ln%lln"]
+    for t in fmt_tokens:
+        cli("format-token", "btcc", [t])
+        cli("format-token", "btcc", ["OP_1", t, "OP_2"])
+        cli("format-token", "btcc", ["sha256(" + t + ")"])
+        repl("repl-format-token", ["[OP_1 " + t + "]"], ["step", "step", "exec " + t, "print"])
+        repl("repl-format-token", ["[OP_1]", t], ["exec " + t, "exec OP_1 " + t, "tf echo " + t, "tf sha256 " + t, "tf " + t + " 1", t])
+        cli("format-token", "tap", ["79be667ef9dcbbac55a06295ce870b07029bfcdb2dce28d959f2815b16f81798", "1", "[" + t + "]"])
+        cli("format-token", "tap", ["79be667ef9dcbbac55a06295ce870b07029bfcdb2dce28d959f2815b16f81798", "1", "[" + t + "]"], stdout_tty=True)
+    # ---- script text with blanks in front / behind / only blanks: piped and as an argument of an interactive run
+    for t in [" [OP_1 OP_2 OP_ADD]", "\t[OP_1]", "                [OP_1]", " \t ", "  ", "   51", " 0x51", "[OP_1 OP_2 OP_ADD] ", " [OP_1 OP_2", "\t\t\t\t\t\t\t\t0x51", " " * 15 + "51", " " * 16 + "[OP_1]", " " * 17 + "[OP_1]",
+              " " * 32 + "[OP_1]", " " * 1000 + "[OP_1]"]:
+        cli("blank-led-script", "btcdeb", [], stdin_data=t.encode() + b"\n", stdin_tty=False)
+        cli("blank-led-script", "btcdeb", [t])
+        cli("blank-led-script", "btcdeb", [t, " 0x01", "\t2"])
+        cli("blank-led-script", "btcc", [t])
+        repl("repl-blank-led-script", [t], ["step", "step", "step", "stack"])
+        repl("repl-blank-led-script", ["-z", t, " 1"], ["step", "exec  OP_1", "exec\tOP_1", " step", "tf  echo  1"])
     # ---- tap given transactions of unusual shape for a correctly funded output (several inputs, the output at another index, no outputs)
     GKx = bytes.fromhex("79be667ef9dcbbac55a06295ce870b07029bfcdb2dce28d959f2815b16f81798")
     q_, _par = btc.taproot_output(GKx, btc.tapleaf_hash(b"\x51"))
